@@ -787,6 +787,13 @@ def verify_directory_hash_subcommand(
 
                         dir_hash_context.append_directory_hashes(file_path, content_hash, structure_hash)
 
+                # a folder with a recorded hash in one of the calculated formats can be verified with that one,
+                # its entries in other formats are then no failure
+                has_comparable_entry = any(
+                    content_hash_lookup and content_hash_lookup.get(entry.hash_format)
+                    for entry in directory_hash_entries
+                )
+
                 num_successful_verifications = 0
                 for directory_hash_entry in directory_hash_entries:
                     content_hash = None
@@ -816,7 +823,7 @@ def verify_directory_hash_subcommand(
                             add_detected_failure_for_format(directory_hash_entry.hash_format)
 
                     if not calculate_only:
-                        if not found_hash_format:
+                        if not found_hash_format and not has_comparable_entry:
                             logger.error(
                                 f"ERROR: verification of folder {relative_path}: No directory hash of type"
                                 f" {hash_format} found"
